@@ -28,7 +28,7 @@ _G = {}
 
 
 def base_opts(L, T=None, fault=False, g=1, **kw):
-    o = {"e3_alias": {F_PARSE: "verif:nd.parse"}, "e3_stream_len": L, "e3_stream_end": L if T is None else T,
+    o = {"e3_alias": {F_PARSE: "verif:nd.parse"}, "e3_no_slicing": True, "e3_stream_len": L, "e3_stream_end": L if T is None else T,
          "e3_stream_fault": fault, "e3_gomaxprocs": g, "timeout_ms": 60000}
     o.update(kw)
     return o
@@ -93,8 +93,17 @@ def wf(stream):
     return cs
 
 
+_BLANK = {}
+
+
 def is_blank(b):
-    return z3.Or(b == 0x20, b == 0x0a, b == 0x09, b == 0x0d, b == 0x0b, b == 0x0c)
+    if not z3.is_expr(b):
+        return z3.BoolVal(b in (0x20, 0x0a, 0x09, 0x0d, 0x0b, 0x0c))
+    t = _BLANK.get(b.get_id())
+    if t is None:
+        t = (b, z3.Or(b == 0x20, b == 0x0a, b == 0x09, b == 0x0d, b == 0x0b, b == 0x0c))
+        _BLANK[b.get_id()] = t
+    return t[1]
 
 
 # ---------------------------------------------------------------------------------------------------------------
@@ -107,7 +116,7 @@ def data_config(cfg):
            "blank_candidates": 0, "sat_twins": 0}
     try:
         prog = _G["prog"]
-        reg = new_region(prog, base_opts(L, T, fault, e3_parse_outcomes="ok", e3_read_prefix=prefix))
+        reg = new_region(prog, base_opts(L, T, fault, e3_parse_outcomes="ok", e3_read_prefix=prefix, e3_pool_reuse="havoc"))
         mains = reg.run_main()
         if len(mains) != 1:
             raise common.Inconclusive("Q2: %d main-thread paths (expected 1)" % len(mains))
@@ -123,17 +132,34 @@ def data_config(cfg):
             out["unknown"].append("%s %s at %s" % (u.kind, u.msg, u.pos))
         stream = [z3.BitVec("s!%d" % i, 8) for i in range(L)]
         wfc = wf(stream)
+        WF = z3.Bool("wf!marker")
         sol = z3.Solver()
         sol.set("timeout", 60000)
 
+        wfsel = z3.Bool("wf!sel")
+        for c_ in wfc:
+            sol.add(z3.Implies(wfsel, c_))
+        cur_pc = [None]
+
         def ask(pc, extra):
+            """one obligation query on the current path: the path condition is asserted once per path (incremental solver),
+            the well-formedness constraints once per configuration behind a selector"""
             t0 = time.time()
+            if cur_pc[0] is not pc:
+                if cur_pc[0] is not None:
+                    sol.pop()
+                sol.push()
+                for c_ in pc:
+                    sol.add(c_)
+                cur_pc[0] = pc
             sol.push()
-            for c_ in pc:
-                sol.add(c_)
+            usewf = False
             for c_ in extra:
-                sol.add(c_)
-            r = sol.check()
+                if c_ is WF:
+                    usewf = True
+                else:
+                    sol.add(c_)
+            r = sol.check(wfsel) if usewf else sol.check()
             m = sol.model() if r == z3.sat else None
             sol.pop()
             out["queries"] += 1
@@ -155,11 +181,20 @@ def data_config(cfg):
             out["maxchunks"] = max(out["maxchunks"], len(chunks))
             pos, fetched = R.notes["bufio"][0], R.notes["bufio"][1]
             pc = X.relevant_pc(R.pc, stream)
+            # pieces of the stream in the order the reader cut them: chunks handed to a worker, and non-empty buffers put
+            # back into the pool without being parsed ("dropped": legitimate only if blank)
+            gos = [e for e in R.events if e.kind == "go"]
+            pieces = [(e.i, "chunk", c_) for e, c_ in zip(gos, chunks)]
+            for (seg, obj, ppos, data) in R.notes.get("puts", ()):
+                if data:
+                    pieces.append((seg - 0.5, "dropped", list(data)))
+            pieces.sort(key=lambda x: x[0])
+            out["dropped"] = out.get("dropped", 0) + sum(1 for p_ in pieces if p_[1] == "dropped")
             # ---- partition --------------------------------------------------------------------------------------
-            flat = [b for c_ in chunks for b in c_]
+            flat = [b for _, _, c_ in pieces for b in c_]
             bad = None
             if len(flat) > pos:
-                bad = "chunks hold %d bytes but only %d were consumed" % (len(flat), pos)
+                bad = "pieces hold %d bytes but only %d were consumed" % (len(flat), pos)
             else:
                 for i, b in enumerate(flat):
                     if not (z3.is_expr(b) and b.get_id() == stream[i].get_id()):
@@ -173,16 +208,26 @@ def data_config(cfg):
                     bad = "io.EOF was forwarded after %d of %d stream bytes" % (pos, L)
                 if bad is None and not fault and len(flat) < L:
                     bad = "stream has %d bytes, chunks hold %d" % (L, len(flat))
+            badq = []
+            if bad is None:
+                # a dropped piece must be blank (else its documents are lost)
+                for _, kind, c_ in pieces:
+                    if kind == "dropped":
+                        r, m = ask(pc, [z3.Not(z3.And([is_blank(b) for b in c_]))])
+                        if r != "unsat":
+                            bad = "a piece of %d bytes that is not blank-only was put back into the pool without being parsed" % len(c_)
+                            badq = [z3.Or([b == LB for b in c_ if z3.is_expr(b)] or [z3.BoolVal(False)])]
+                            break
             if bad:
-                # a replayable witness: well-formed stream with a document among the bytes that never reached a chunk
+                # a replayable witness: well-formed stream with a document among the bytes that never reached the parser
                 missing = stream[len(flat):]
                 cur = out["viol"].get("partition")
                 if cur is None or cur.get("weak"):
-                    r, m = ask(pc, wfc + ([z3.Or([b == LB for b in missing])] if missing else []))
+                    r, m = ask(pc, [WF] + (badq or ([z3.Or([b == LB for b in missing])] if missing else [])))
                     if r == "sat":
                         out["viol"]["partition"] = witness(R, m, bad)
                     elif cur is None:
-                        r, m = ask(pc, wfc)
+                        r, m = ask(pc, [WF])
                         if r == "sat":
                             w = witness(R, m, bad)
                         else:
@@ -193,31 +238,33 @@ def data_config(cfg):
                         if w:
                             w["weak"] = True
                             out["viol"]["partition"] = w
-            # ---- every chunk ends after an LF (or is the last one and the stream ended there) ---------------------
-            for k, c_ in enumerate(chunks):
-                last_chunk = k == len(chunks) - 1
+            # ---- every piece ends after an LF (or is the last one and the stream ended there) -----------------------
+            for k, (_, kind, c_) in enumerate(pieces):
+                last_piece = k == len(pieces) - 1
                 if not c_:
-                    out["viol"].setdefault("lf", {"what": "empty chunk handed to the parser", "chunk": k})
                     continue
-                ended = last_chunk and pos == T and (len(flat) == pos or fault)
+                ended = last_piece and pos == T and (len(flat) == pos or fault)
                 if ended:
                     continue
                 r, m = ask(pc, [c_[-1] != LF])
                 if r == "unknown":
                     out["unknown"].append("lf query")
                 elif r == "sat" and "lf" not in out["viol"]:
-                    r2, m2 = ask(pc, [c_[-1] != LF] + wfc)
-                    w = witness(R, m2 if r2 == "sat" else m, "chunk %d does not end in LF and the stream goes on" % k, k)
+                    r2, m2 = ask(pc, [c_[-1] != LF, WF])
+                    w = witness(R, m2 if r2 == "sat" else m, "piece %d (%s) does not end in LF and the stream goes on" % (k, kind), k)
                     if r2 != "sat":
                         w["not_wf"] = True
                     out["viol"]["lf"] = w
+            for k, c_ in enumerate(chunks):
+                if not c_:
+                    out["viol"].setdefault("lf", {"what": "empty chunk handed to the parser", "chunk": k})
             # ---- no blank-only chunk on a well-formed stream ------------------------------------------------------
             if not fault:
                 for k, c_ in enumerate(chunks):
                     if not c_:
                         continue
                     out["blank_candidates"] += 1
-                    r, m = ask(pc, wfc + [is_blank(b) for b in c_])
+                    r, m = ask(pc, [WF] + [is_blank(b) for b in c_])
                     if r == "unknown":
                         out["unknown"].append("blank query")
                     elif r == "sat":
@@ -228,9 +275,11 @@ def data_config(cfg):
                         out["viol_blank_paths"] = out.get("viol_blank_paths", 0) + 1
                 # vacuity twin: the path admits a well-formed stream with at least one document
                 if chunks and out["sat_twins"] < 50:
-                    r, m = ask(pc, wfc + [z3.Or([b == LB for b in stream])] if stream else wfc)
+                    r, m = ask(pc, [WF, z3.Or([b == LB for b in stream])] if stream else [WF])
                     if r == "sat":
                         out["sat_twins"] += 1
+                        if "benign" not in out or len(R.notes.get("reads", ())) > len(out["benign"]["reads"]):
+                            out["benign"] = witness(R, m, "benign")
     except common.Inconclusive as e:
         out["error"] = str(e)
     except Exception:
@@ -384,13 +433,22 @@ def run_data(ctx, prog, Lmax):
     ctx.bounds["Q2.data"] = bound
     ctx.vacuity["Q2.data"] = {"reader paths": paths, "chunks examined": chunks, "max chunks on a path": max(r["maxchunks"] for r in results),
                               "paths admitting a well-formed stream with a document (twin, capped at 50 per configuration)": sum(r["sat_twins"] for r in results),
-                              "blank-chunk queries": sum(r["blank_candidates"] for r in results)}
+                              "blank-chunk queries": sum(r["blank_candidates"] for r in results),
+                              "blank pieces dropped by the reader (each checked to be blank-only)": sum(r.get("dropped", 0) for r in results)}
     for e in errs[:3]:
         ctx.report_inconclusive("Q2.data: " + e.strip().splitlines()[-1])
     for u in unk[:3]:
         ctx.report_inconclusive("Q2.data: solver/engine unknown: " + u)
     if paths == 0 or chunks == 0:
         ctx.report_inconclusive("Q2.data: vacuous (no reader path / no chunk)")
+    # translator validation: a well-formed stream + fragmentation taken from a model of one reader path, run natively
+    bens = sorted([r["benign"] for r in results if "benign" in r], key=lambda w: (-len(w["stream"]), -len(w["reads"])))
+    if bens:
+        bad_, textv = replay_data(ctx, bens[0])
+        ctx.extra["translator_validation_data"] = {"stream": bens[0]["stream_text"], "reads": bens[0]["reads"], "native": textv, "ok": not bad_}
+        ctx.log("translator validation (well-formed stream of a model path run natively): %s" % textv)
+        if bad_:
+            ctx.report_inconclusive("Q2.data: native run disagrees with the model on a well-formed stream: %s" % textv)
     names = {"partition": "Q2.partition", "lf": "Q2.lf", "blank": "Q2.blank", "term": "Q2.reader-term"}
     descs = {"partition": "concatenation of the chunks handed to workers = consumed stream prefix (term-identical bytes); at io.EOF the whole stream was consumed",
              "lf": "unsat of: a chunk that is not the final one at the stream's end has a last byte != LF",
@@ -529,6 +587,10 @@ def order_config(cfg):
                                                    "sites": sorted(sch.sites), "alias": sch.alias}}
             if r1 == "sat" and F.status == "done":
                 out["delivered"].append(tuple(str(x) for x in delivered))
+                if cfg == (2, 3, False, 0, 0) and "validation" not in out and okseq and okdel and okclose:
+                    sch = RP.build_schedule(enc, enc.schedule(m1))
+                    out["validation"] = {"cfg": cfg, "what": "benign", "replay": {"steps": sch.steps, "slots": sch.slots, "pre_only": sch.pre_only,
+                                         "event_sites": sorted(sch.event_sites), "sites": sorted(sch.sites), "alias": sch.alias}}
             # ---- termination --------------------------------------------------------------------------------------
             r3, desc, mm = enc.stuck(pcs)
             if r3 == "unknown":
@@ -641,7 +703,7 @@ func TestVerifE3Order(t *testing.T) {
 '''
 
 
-def replay_order(ctx, w):
+def replay_order(ctx, w, benign=False):
     rp = w["replay"]
     c, g, fault, fail_at, reuse_cap = w["cfg"]
     if fault or fail_at or reuse_cap:
@@ -662,6 +724,8 @@ def replay_order(ctx, w):
     followed = kv.get("sched") is not None and kv["sched"].split("/")[0] == kv["sched"].split("/")[1] and "schedfail" not in kv
     got = kv.get("order", "[]").strip("[]").split()
     want = expect.strip("[]").split()
+    if benign:
+        return followed and kv.get("order") == expect and kv.get("errs") == "[EOF]" and kv.get("closed") == "true", text
     if followed:
         bad = kv.get("order") != expect or kv.get("errs") != "[EOF]" or kv.get("closed") != "true"
     else:
@@ -751,6 +815,19 @@ def run_order(ctx, prog, Cmax):
                 ctx.report_inconclusive("%s: solver found: %s (cfg %s; %d configurations) — not reproduced natively (%s)" % (lname, w["what"], w["cfg"], len(ws), text))
         ctx.add_lemma(lname, verdict, bound=bound, queries=q, solver_s=round(ss, 2), desc=descs[key])
     ctx.sample({"lemma": "Q2.order", "scenarios": nsc, "events": nev, "queue capacities": concs})
+    # translator validation: one complete schedule of a plain scenario, predicted by the model, forced on the real code
+    vals = [r["validation"] for r in results if "validation" in r]
+    if vals:
+        try:
+            okv, textv = replay_order(ctx, vals[0], benign=True)
+        except common.Inconclusive as e:
+            okv, textv = False, str(e)
+        ctx.extra["translator_validation"] = {"cfg": vals[0]["cfg"], "steps": len(vals[0]["replay"]["steps"]), "native": textv, "ok": okv}
+        ctx.log("translator validation (benign schedule forced natively): %s" % textv)
+        if not okv:
+            ctx.report_inconclusive("Q2.order: a complete schedule predicted by the model could not be followed by the real code, or the deliveries differ: %s" % textv)
+    elif not errs:
+        ctx.report_inconclusive("Q2.order: no plain scenario available for translator validation")
 
 
 # ---------------------------------------------------------------------------------------------------------------
